@@ -19,6 +19,9 @@ KillOk(L, W, wallms, jsig, jexit) ==
   ELSE jsig = 24 /\ wallms >= L * 1000 /\ wallms <= (L * 1000) + 1500   \* SIGXCPU at the deadline, about a second of jitter
 (* a job that does not care about the polite signal is terminated all the same: told at the deadline, gone (by whatever signal) *)
 (* within the same jitter of a further second                                                                              *)
+(* the same with the journal locked by another process for some time beyond the end of the job: the executor waits for the lock,  *)
+(* whatever timers of its own come due meanwhile, and the journal then records how the job ended (one entry)                      *)
+LockedKillOk(L, W, rc, jentries, jsig, jexit) == rc = 0 /\ jentries = 1 /\ (IF W < L THEN jsig = 0 /\ jexit = 0 ELSE jsig = 24)
 StubbornKillOk(L, W, wallms, jsig) == jsig # 0 /\ wallms >= L * 1000 /\ wallms <= (L * 1000) + 2500
 (* a task of a request whose limit is a DUE time: the expectation comes as a kind and, for a kill, a window (ms after the task's own start) *)
 ObservedDueOk(t, o) ==
